@@ -38,7 +38,7 @@ PROPS = {
                      "terminal and junction sets; non-trivial = a reach probe fired; distinct = distinct event-log hash",
                 assumptions=["route ends compared as an unordered pair; a junction the improver moved counts at recommendedPosition()",
                              "junctions in the reported deleted list are excluded until the following transaction (documented: freed at the router's convenience)"]),
-    "C10": dict(build="plain", runs_quick=30000, budget_quick=45, runs_thorough=400000, budget_thorough=900,
+    "C10": dict(build="plain", runs_quick=90000, budget_quick=45, runs_thorough=400000, budget_thorough=900,
                 rule=ROUTER_RULE + "; C10 scenes: grid of cells with one rectangle each (corridors 20-160 wide), 2-7 orthogonal connectors with free end points, nudging distance 2-10, all nudging option combinations, histories of moves and re-nudging",
                 assumptions=["overlap clause armed only if at least one of the two segments is interior and the free channel around its whole extent is >= (connectors+1) x nudging distance on both sides",
                              "two end segments on each other are not judged (both fixed); end-point clause only with nudgeOrthogonalSegmentsConnectedToShapes off",
